@@ -40,6 +40,7 @@ CONSTANTS
   VecValues,     \* spellings of vector components (finite or zero)
   TupleDecls,    \* BOOLEAN: also declare sequences of two elements element-wise (a pair of dimensions)
   MaxParams,     \* 1..MaxParams guarded parameters per call
+  CallStyles,    \* how the arguments are passed: subset of AllStyles
   ResultKinds    \* subset of {"none", "dim", "same"}: no result check / declared dimension / same as parameter 1
 
 VARIABLES call,   \* the call being made (never changes: the behaviours are the test inputs)
@@ -51,7 +52,8 @@ vars == <<call, pc, todo, out>>
 
 -----------------------------------------------------------------------------
 (* Values: only the class matters to the gate.                               *)
-ValClass == [ one |-> "fin", three |-> "fin", neg |-> "fin", f25 |-> "fin", big |-> "fin", tiny |-> "fin",
+ValClass == [ sone |-> "fin", sf25 |-> "fin",          \* SymPy Integer / Float spellings of one and 2.5
+              one |-> "fin", three |-> "fin", neg |-> "fin", f25 |-> "fin", big |-> "fin", tiny |-> "fin",
               cplx |-> "fin",
               \* non-zero finite values outside the range of binary doubles (10^400, 10^-400 as exact numbers,
               \* 1e400 and 1e-330 as arbitrary-precision floats): finite and non-zero all the same
@@ -155,13 +157,27 @@ WellFormedCall(c) ==
 (* The call protocol.                                                        *)
 NoOut == [t |-> "none", p |-> -1]
 
+(* Call styles.  The statement: the verdict never depends on positional versus keyword passing.          *)
+(*   pos        all arguments positional                                                                *)
+(*   kw         all by keyword, in the order of the signature                                           *)
+(*   kwrev      all by keyword, in the reverse order                                                    *)
+(*   mixed      the first positional, the others by keyword in reverse order                            *)
+(*   optskip    the function has an unguarded parameter with a default after its first parameter; it is  *)
+(*              not passed: first argument positional, the others by keyword                             *)
+(*   optskipkw  the same function, all arguments by keyword in reverse order                             *)
+(*   optgiven   the same function, the optional parameter passed first by keyword, then the others        *)
+AllStyles == {"pos", "kw", "kwrev", "mixed", "optskip", "optskipkw", "optgiven"}
+\* with a single guarded parameter the orders coincide
+StyleFits(n, st) == IF n >= 2 THEN TRUE ELSE st \in {"pos", "kw", "optgiven"}
+
 Init == /\ \E n \in 1..MaxParams :
-             \E a \in [1..n -> Args], dd \in [1..n -> Decls], np \in 0..n, r \in Results :
-               /\ call = [n |-> n, args |-> a, decls |-> dd, npos |-> np, r |-> r]
+             \E a \in [1..n -> Args], dd \in [1..n -> Decls], st \in CallStyles, r \in Results :
+               /\ StyleFits(n, st)
+               /\ call = [n |-> n, args |-> a, decls |-> dd, style |-> st, r |-> r]
                /\ WellFormedCall(call)
         /\ pc = "bound" /\ todo = {} /\ out = NoOut
 
-\* the first npos arguments are passed positionally, the others by keyword: all of them are bound, and
+\* however the arguments are passed (call.style), each is bound to the parameter it is meant for, and
 \* every guard declaration must refer to a parameter that exists (an argument that is there)
 Bind == /\ pc = "bound"
         /\ \A i \in 1..call.n : call.args[i].k # "absent"
@@ -234,7 +250,7 @@ VerdictIndependentOfPrefix == AtStart =>
     \A p \in Prefixes :
       Verdict(Respell(call.args[i], call.args[i].val, p), call.decls[i]) = Verdict(call.args[i], call.decls[i])
 VerdictIndependentOfCallStyle == AtStart =>
-  \A np \in 0..call.n : Outcomes([call EXCEPT !.npos = np]) = Outcomes(call)
+  \A st \in AllStyles : Outcomes([call EXCEPT !.style = st]) = Outcomes(call)
 
 \* a type error exactly for a bare non-zero number against a dimensional declaration; a units error for a
 \* (non-zero, finite) quantity of another dimension
@@ -264,7 +280,7 @@ DeclJ(x) == CASE x.k = "one" -> [k |-> "one", d |-> DimSeq(x.d)]
               [] x.k = "each" -> [k |-> "each", ds |-> [i \in DOMAIN x.ds |-> DimSeq(x.ds[i])]]
               [] OTHER -> [k |-> "none"]
 CallJ == [n |-> call.n, args |-> [i \in 1..call.n |-> ArgJ(call.args[i])],
-          decls |-> [i \in 1..call.n |-> DeclJ(call.decls[i])], npos |-> call.npos,
+          decls |-> [i \in 1..call.n |-> DeclJ(call.decls[i])], style |-> call.style,
           r |-> [rk |-> call.r.rk, res |-> ArgJ(call.r.res), rd |-> DeclJ(call.r.rd)]]
 Emit == Terminal => PrintT(ToJson([call |-> CallJ, fin |-> [pc |-> pc, t |-> out.t, p |-> out.p, ran |-> BodyRan]]))
 =============================================================================
